@@ -236,7 +236,7 @@ fn gen_msg(rng: &mut Rng, ndest: u8, npay: u8) -> MsgSpec {
 fn malformed_candidate(rng: &mut Rng, keys: &KeyPool, sorted: &[u8], base: &MSet) -> MSet {
     let mut s = base.clone();
     s.nonce = rng.bytes32();
-    match rng.below(11) {
+    match rng.below(13) {
         0 => s.signers.clear(),
         1 => {
             // adjacent equal keys
@@ -271,6 +271,19 @@ fn malformed_candidate(rng: &mut Rng, keys: &KeyPool, sorted: &[u8], base: &MSet
                 MSigner { key: keys.pubs[b as usize], weight: 1 + rng.below(3) as u128, key_id: Some(b) },
             ];
             s.threshold = 1;
+        }
+        11 | 12 => {
+            // weights whose sum passes u128 without any single dominant term: three to five
+            // signers of about 2^127 (or MAX/(k-1) + 1) each, threshold small enough for a wrapped total
+            let k = 3 + rng.usize(3).min(sorted.len().saturating_sub(3));
+            let each: u128 = if rng.chance(1, 2) { 1u128 << 127 } else { u128::MAX / (k as u128 - 1) + 1 };
+            s.signers = sorted
+                .iter()
+                .take(k)
+                .enumerate()
+                .map(|(i, a)| MSigner { key: keys.pubs[*a as usize], weight: each + if i % 2 == 1 { rng.below(12) as u128 } else { 0 }, key_id: Some(*a) })
+                .collect();
+            s.threshold = 1 + rng.below(9) as u128;
         }
         7 => s.threshold = 0,
         8 => {
@@ -686,6 +699,16 @@ impl World for WorldG {
             };
             ctx.trace_str(eff.kind());
             run_op(&mut ex, ctx, &eff);
+            if i % 3 == 1 && !ctx.stopped() {
+                // F7 over the whole exported surface: entry points that did not exist at the pinned commit
+                let mut addrs = ex.principals.clone();
+                addrs.push(ex.gws[0].addr.clone());
+                addrs.push(ex.gws[0].example.clone());
+                let gw = ex.gws[0].addr.clone();
+                let app = ex.gws[0].example.clone();
+                crate::surface::probe_unlisted(ctx, &mut ex.sim, &gw, "axelar-gateway", &addrs, &["C13", "C07", "C02"], &["C02", "C03", "C06", "C07", "C01", "C08", "C09", "C16"]);
+                crate::surface::probe_unlisted(ctx, &mut ex.sim, &app, "example", &addrs, &["C13", "C07", "C16"], &["C16", "C07"]);
+            }
             if !matches!(op, GOp::Resubmit { .. }) && !matches!(op, GOp::Advance { .. } | GOp::RetentionSweep { .. } | GOp::Query { .. }) {
                 ex.history.push(op.clone());
             }
